@@ -34,10 +34,21 @@ class TieBroken(Exception):
         self.log = log
 
 
+def _big_stack():
+    # the extracted model is not tail recursive everywhere: give it an unlimited stack (the crate's own
+    # binaries keep the default 8 MiB: C01 measures them)
+    import resource
+    try:
+        resource.setrlimit(resource.RLIMIT_STACK, (resource.RLIM_INFINITY, resource.RLIM_INFINITY))
+    except Exception:
+        pass
+
+
 def sh(cmd, timeout=1200, cwd=None, env=None, input=None):
     try:
+        pre = _big_stack if (not isinstance(cmd, str) and os.path.basename(cmd[0]) == "gm") else None
         p = subprocess.run(cmd, shell=isinstance(cmd, str), cwd=cwd, env=env or ENV, input=input,
-                           capture_output=True, text=True, timeout=timeout, errors="replace")
+                           capture_output=True, text=True, timeout=timeout, errors="replace", preexec_fn=pre)
         return p.returncode, p.stdout, p.stderr
     except subprocess.TimeoutExpired as e:
         return 124, (e.stdout or b"").decode("utf8", "replace") if isinstance(e.stdout, bytes) else (e.stdout or ""), "TIMEOUT"
@@ -208,9 +219,24 @@ def hygiene():
 
 
 def print_assumptions(prop, module, theorems):
-    """compile a throw-away file that prints the assumptions of each theorem"""
+    """compile a throw-away file that prints the assumptions of each theorem; the answer is cached under
+    the hash of the compiled property file (any change upstream changes that file)"""
     d = os.path.join(WORK, "assume")
     os.makedirs(d, exist_ok=True)
+    vo = os.path.join(COQ, "theories", module.replace(".", "/") + ".vo")
+    key = None
+    if os.path.exists(vo):
+        key = hashlib.sha1(open(vo, "rb").read() + "|".join(theorems).encode()).hexdigest()
+        cpath = os.path.join(d, "cache_%s_%s.json" % (prop, key))
+        if os.path.exists(cpath):
+            return json.load(open(cpath))
+    res = _print_assumptions(prop, module, theorems, d)
+    if key is not None:
+        json.dump(res, open(os.path.join(d, "cache_%s_%s.json" % (prop, key)), "w"))
+    return res
+
+
+def _print_assumptions(prop, module, theorems, d):
     path = os.path.join(d, "Assume_%s.v" % prop)
     with open(path, "w") as f:
         f.write("From GoSyn Require Import %s.\n" % module)
